@@ -750,8 +750,9 @@ func runIn(sc *Scenario, res *core.Result, verbose bool) {
 		srv.IdleTimeout = hourIdle
 	}
 	if sc.Decorate {
-		srv.DecorateReader = (&common.Decorator{K: k}).Decorate
-		srv.MsgAcceptFunc = (&common.YieldAccept{K: k}).Accept
+		slow := []time.Duration{0, 0, time.Millisecond, 50 * time.Millisecond}[sc.RunSeed%4]
+		srv.DecorateReader = (&common.Decorator{K: k, Slow: slow}).Decorate
+		srv.MsgAcceptFunc = (&common.YieldAccept{K: k, Slow: slow}).Accept
 	}
 	if sc.Transport == "tls" {
 		x.l = n.Listen()
